@@ -27,12 +27,13 @@ PLANS_T = PLANS_Q + [("0", None), ("1", "0"), ("8", "5"), ("50", "5"), ("50", "2
 
 
 def set_books(L, c, assign):
-    """assign: per used stripe a (age letter, bad, justsynced)"""
+    """assign: per used stripe a (age letter, bad, justsynced); the rehash flag of the stripe is kept"""
     now = L.time
     times = []
     for pos, a in assign.items():
         t = now - AGES[a[0]]
-        c.info[pos] = (t, a[1], False, a[2])
+        old = c.info[pos]
+        c.info[pos] = (t, a[1], bool(old is not None and old[2]), a[2])
         times.append(t)
     c.info_oldest = min(t for t in (i[0] for i in c.info if i is not None))
     raw = C.encode(c)
@@ -134,6 +135,17 @@ def job(j):
     for pv in perm.violations(L, "scrub", res, c):
         pv["where"] = where
         v.append(pv)
+    if damage is None:
+        L.scan_versions()
+        for o in X.c06(L, where):
+            o["kind"] = "after-scrub-" + o["kind"]
+            v.append(o)
+        if c.prevhash is not None:
+            # during a hash migration a stripe verified correct is converted: its flag is cleared
+            for pos in sorted(V):
+                b = c2.info[pos]
+                if b is not None and b[2]:
+                    v.append(dict(kind="verified-stripe-still-flagged-rehash", where=where, pos=pos))
     return dict(viols=v, nverified=len(V), rc=res.rc)
 
 
@@ -243,6 +255,10 @@ def run(ctx):
                 raise RuntimeError("base failed\n" + r.text())
         saved = L0.save()
         c = L0.content()
+        r = L0.run("rehash")
+        if r.rc != 0:
+            raise RuntimeError("rehash failed\n" + r.text())
+        saved_rehash = L0.save()     # the same array with a hash migration scheduled (every stripe flagged)
     used = sorted(i for i, x in enumerate(c.info) if x is not None)
     n = len(used)
     ctx.set("stripes", n)
@@ -253,6 +269,12 @@ def run(ctx):
             if plan in ("full", "new", "bad") and tier == "quick" and ages.count("O") not in (0, n, 3):
                 continue
             jobs.append(("books", (cfg, saved, assign, plan, older, None, ctx.seed)))
+    for ages in itertools.product("OMN", repeat=n):
+        assign = {pos: (a, False, a == "N") for pos, a in zip(used, ages)}
+        for plan, older in [("50", "0"), ("20", None), ("full", None)]:
+            if plan == "full" and ages.count("O") not in (0, n):
+                continue
+            jobs.append(("books", (cfg, saved_rehash, assign, plan, older, None, ctx.seed)))
     for k in range(0, n + 1):
         for bads in itertools.combinations(used, k):
             if tier == "quick" and k > 2 and k < n:
